@@ -3,7 +3,8 @@
             implementation/outer/internal/alm-helpers.tpp (update_penalty_weights, initialize_penalty),
             outer/alm.hpp (ALMParams, Stats), problem/box-constr-problem.hpp (eval_proj_multipliers_box = Prox.proj_multipliers).
    The inner solver is a *script*: a list of outcomes (status, ε, slack error written or not, multipliers written or not,
-   iteration count, "clock says out of time after this call").  The model consumes the script exactly like the C++ loop
+   iteration count, "clock says out of time after this call", "ALM's stop flag is set when the outer loop reads it after
+   this call").  The model consumes the script exactly like the C++ loop
    consumes inner-solver calls and records, per outer iteration, what the inner solver was handed. *)
 From Coq Require Import List ZArith Bool Arith.
 From Alpaqa Require Import Num Vec Prox.
@@ -52,7 +53,10 @@ Section Alm.
     ir_err : option (list T);   (* Some e: the solver wrote err_z := e;  None: left the buffer untouched *)
     ir_y : option (list T);     (* Some y: the solver wrote y := y;      None: left y untouched *)
     ir_iters : nat;             (* Stats::iterations of this call *)
-    ir_oot : bool               (* elapsed > max_time when the outer loop reads the clock after this call *)
+    ir_oot : bool;              (* elapsed > max_time when the outer loop reads the clock after this call *)
+    ir_stop : bool              (* ALM's own stop flag (set by ALMSolver::stop(), which also forwards to the inner solver) is set
+                                   when the outer loop reads it after this call: `stop_signal.stop_requested()`, read once per
+                                   outer iteration, after the inner solve and after the Interrupted-inner return *)
   }.
 
   (* ---------------- alm-helpers.tpp ---------------- *)
@@ -152,8 +156,9 @@ Section Alm.
 
   Definition norm_penalty (Σ : list T) : T := vnorm2 Σ / nsqrt (nofZ (Z.of_nat (length Σ))).
 
-  Definition exit_status (alm_conv oot ooi : bool) : status :=
-    if alm_conv then Converged else if oot then MaxTime else if ooi then MaxIter else Busy.
+  (* s.status = alm_converged ? Converged : out_of_time ? MaxTime : out_of_iter ? MaxIter : interrupted ? Interrupted : Busy *)
+  Definition exit_status (alm_conv oot ooi intr : bool) : status :=
+    if alm_conv then Converged else if oot then MaxTime else if ooi then MaxIter else if intr then Interrupted else Busy.
 
   Fixpoint alm_loop (P : alm_params) (pb : alm_problem) (i : nat) (s : st) (script : list inner_res)
       : list iter_rec * final :=
@@ -183,7 +188,9 @@ Section Alm.
         else
           let alm_conv := (ir_eps r <=? p_tol P) && conv && (norm_e <=? p_dual_tol P) in
           let ooi := Nat.eqb (S i) (p_max_iter P) in
-          if alm_conv || ooi || ir_oot r then ([rec], fin (exit_status alm_conv (ir_oot r) ooi))
+          (* bool interrupted = stop_signal.stop_requested();  exit = alm_converged || out_of_iter || out_of_time || interrupted *)
+          let intr := ir_stop r in
+          if alm_conv || ooi || ir_oot r || intr then ([rec], fin (exit_status alm_conv (ir_oot r) ooi intr))
           else
             let Σ' := update_penalty_weights P (Nat.eqb i 0) err (s_err_old s) norm_e (s_norm_old s) (s_Sigma s) in
             let ε' := nfmax (p_rho P * s_eps s) (p_tol P) in
